@@ -75,7 +75,22 @@ pub fn run(_args: &[String]) {
                 // optional post-signing change of a stored assertion payload (same length)
                 let mut data = bytes.clone();
                 if let Some(m) = rs["overwrite"].as_str() { if let Some(p) = data.windows(m.len()).position(|w| w == m.as_bytes()) { for b in &mut data[p..p + 4] { *b = b'X'; } } }
-                reads.push(json!({"name": rs["name"], "read": read_cawg(&c, &data, &rt)}));
+                // a non-zero byte in a padding field of the identity assertion: CBOR text key "pad1"/"pad2" followed by a byte string
+                let mut pad_info = Value::Null;
+                if let Some(pd) = rs["pad"].as_object() {
+                    let which = pd["which"].as_str().unwrap_or("pad1");
+                    let mut key = vec![0x64u8]; key.extend_from_slice(which.as_bytes());
+                    if let Some(p) = data.windows(key.len()).position(|w| w == key.as_slice()) {
+                        let h = p + key.len();
+                        let (len, start) = match data[h] { b if (0x40..=0x57).contains(&b) => ((b - 0x40) as usize, h + 1), 0x58 => (data[h + 1] as usize, h + 2), 0x59 => (((data[h + 1] as usize) << 8) | data[h + 2] as usize, h + 3), _ => (0, h) };
+                        if len > 0 {
+                            let off = match pd["pos"].as_str().unwrap_or("first") { "first" => 0, "middle" => len / 2, _ => len - 1 };
+                            data[start + off] = 1;
+                            pad_info = json!({"which": which, "len": len, "offset": off});
+                        }
+                    }
+                }
+                reads.push(json!({"name": rs["name"], "pad": pad_info, "read": read_cawg(&c, &data, &rt)}));
             }
             json!({"sign": "ok", "reads": reads})
         }));
